@@ -15,6 +15,7 @@
   All theorems quantify over arbitrary class lists / character lists / IFS values / environments
   (no bound on lengths or on the number of positional parameters).
 -/
+import YashModel.Expansion.WordBridge
 import YashModel.Expansion.Lemmas
 import YashModel.Expansion.FieldLemmas
 import YashModel.Expansion.ReadLemmas
@@ -846,6 +847,50 @@ example : tildeText (envHome "/h") "zz".toList false = "~zz".toList ∧ tildeDir
 example : expandWordMultiple (envHome "/h") (.cons (.dq (.cons (.lit '~') .nil)) .nil) = (envHome "/h", .ok ["~".toList]) :=
   quotes_protect _ _ _ (by simp) rfl
 
+/-! ## This model and C04's word model (`Fnmatch/Word.lean`) are the same transcription -/
+
+/-- ★ The two transcriptions of word.rs / text.rs cannot drift apart: whenever C04's environment-free pattern word `pw`
+    describes the word `w` in `env` (`corrW`: same units; `param v` ↔ a parameter whose value is the scalar `v`;
+    `alt pw'` ↔ `${p+w'}` / `${p:+w'}` taking its word), this area's initial expansion of `w` — in both splitting contexts —
+    leaves the environment unchanged and denotes exactly ONE field: the attributed characters of `Fnmatch.PWord.expand pw`
+    (origin, quoted and quoting flag of every character). -/
+theorem expandWord_eq_PWord (env : Env) (ws : Bool) (pw : Fnmatch.PWord) (w : Word) (h : corrW env pw w = true) :
+    den (expandWord env ws w) = (env, .ok [pw.expand.map convChar]) := by
+  rw [word_den]; exact w_bridge pw w env ws h
+
+/-- … hence the pattern characters a trim / `case` pattern gets from the word are C04's `patternOfWord`: the same
+    word read by either model gives the same pattern. -/
+theorem pattern_of_word_agrees (env : Env) (ws : Bool) (pw : Fnmatch.PWord) (w : Word) (ph : Phrase) (env' : Env)
+    (h : corrW env pw w = true) (hx : expandWord env ws w = (env', .ok ph)) :
+    env' = env ∧ toPatternChars (applyEscapes (ph.ifsJoin env')) = Fnmatch.patternOfWord pw := by
+  have hd := expandWord_eq_PWord env ws pw w h
+  rw [hx] at hd
+  simp only [den_ok, Prod.mk.injEq, Except.ok.injEq] at hd
+  obtain ⟨he, hf⟩ := hd
+  refine ⟨he, ?_⟩
+  rw [ifsJoin_eq, hf, patternChars_eq_fnmatch]
+  have hl : (joinBySep env' [pw.expand.map convChar]).map (fun c => (⟨c.value, c.isQuoted, c.isQuoting⟩ : Fnmatch.AttrChar))
+      = pw.expand.map Fnmatch.PAttrChar.reduce := by
+    simp only [joinBySep, List.intercalate_singleton, List.map_map]
+    apply List.map_congr_left
+    intro c _
+    rfl
+  rw [hl]
+  rfl
+
+def envXY : Env :=
+  { vars := [("x", { value := some (.scalar "a*".toList), readOnly := false })],
+    pos := ["b c".toList], nounset := false, exitStatus := 0, arg0 := [] }
+
+/-- `"\$$x"'q'${1+"$x"\*}` : every kind of unit, a parameter and a nested switch word -/
+example : corrW envXY
+    (.cons (.dq (.cons (.bs '$') (.cons (.param "a*".toList) .nil)))
+      (.cons (.sq ['q']) (.cons (.unq (.alt (.cons (.dq (.cons (.param "a*".toList) .nil)) (.cons (.unq (.bs '*')) .nil)))) .nil)))
+    (.cons (.dq (.cons (.bs '$') (.cons (.param (.var "x") .none) .nil)))
+      (.cons (.sq ['q']) (.cons (.unq (.param (.pos 1) (.switch .unset .alter
+        (.cons (.dq (.cons (.param (.var "x") .none) .nil)) (.cons (.unq (.bs '*')) .nil))))) .nil))) = true := by
+  decide +kernel
+
 /-! ## Which `~` is a tilde prefix (`parser/lex/tilde.rs`) -/
 
 /-- In a word without an unquoted colon the two readings coincide: `parse_tilde_everywhere_after(0)` (assignment
@@ -874,6 +919,80 @@ theorem tilde_everywhere_eq_front (us : List WordUnit) (h : ∀ u ∈ us, isColo
 example : parseTildeEverywhereAfter 2 ("~=~a/b:~c".toList.map fun c => WordUnit.unq (.lit c)) =
     [.unq (.lit '~'), .unq (.lit '='), .tilde ['a'] true, .unq (.lit '/'), .unq (.lit 'b'), .unq (.lit ':'), .tilde ['c'] false] := by
   rfl
+
+/-! ## Command substitution as an opaque value source (XCU 2.6.3; `initial/command_subst.rs`) -/
+
+/-- "removing sequences of one or more <newline> characters at the end of the substitution": what is removed is a run
+    of newlines, and what is left does not end in a newline — for every output. -/
+theorem strip_trailing_newlines_spec (s : List Char) :
+    (∃ k, s = stripTrailingNewlines s ++ List.replicate k '\n') ∧ (stripTrailingNewlines s).getLast? ≠ some '\n' := by
+  unfold stripTrailingNewlines
+  have hsplit := List.takeWhile_append_dropWhile (p := (· == '\n')) (l := s.reverse)
+  constructor
+  · refine ⟨(s.reverse.takeWhile (· == '\n')).length, ?_⟩
+    have hall : ∀ (l : List Char), ∀ c ∈ l.takeWhile (· == '\n'), c = '\n' := by
+      intro l
+      induction l with
+      | nil => simp
+      | cons d t ih =>
+        intro c hc
+        by_cases hd : d = '\n'
+        · simp only [List.takeWhile_cons, hd, beq_self_eq_true, if_true, List.mem_cons] at hc
+          rcases hc with hc | hc
+          · exact hc
+          · exact ih c hc
+        · simp [List.takeWhile_cons, hd] at hc
+    have hrep : (s.reverse.takeWhile (· == '\n')).reverse = List.replicate (s.reverse.takeWhile (· == '\n')).length '\n' := by
+      rw [List.eq_replicate_iff]
+      exact ⟨by simp, fun c hc => hall _ c (by simpa using hc)⟩
+    have := congrArg List.reverse hsplit
+    rw [List.reverse_append, List.reverse_reverse] at this
+    rw [← hrep]; exact this.symm
+  · intro h
+    have hne : s.reverse.dropWhile (· == '\n') ≠ [] := by
+      intro he; rw [he] at h; simp at h
+    rw [List.getLast?_reverse] at h
+    have hh := List.head?_dropWhile_not (p := (· == '\n')) (l := s.reverse)
+    rw [h] at hh
+    simp at hh
+
+/-- ★ Command substitution for EVERY output: `$(…)` as a command argument is the output without its trailing
+    newlines, as characters of a soft expansion, split at the IFS in force — whatever the command writes. -/
+theorem cmdsubst_is_split (env : Env) (bq : Bool) (c : List Char) :
+    expandWordMultiple env (.cons (.unq (.cmd bq c)) .nil) =
+      (env, .ok ((splitInto env.ifs (toField (stripTrailingNewlines (env.cmdOut c)))).map removeQuotesAndStrip)) := by
+  simp [expandWordMultiple, expandWord, expandWordUnit, expandTextUnit, cmdSubstPhrase, expandWordGo,
+    Phrase.zeroFields, Phrase.append, Phrase.toFields]
+
+/-- … and `"$(…)"` is exactly one field, the output without its trailing newlines (inner newlines, blanks and IFS
+    characters kept), for every output and every IFS. -/
+theorem cmdsubst_in_dquotes_one_field (env : Env) (bq : Bool) (c : List Char) :
+    expandWordMultiple env (.cons (.dq (.cons (.cmd bq c) .nil)) .nil) =
+      (env, .ok [stripTrailingNewlines (env.cmdOut c)]) := by
+  have hq := quoteField_protected (toField (stripTrailingNewlines (env.cmdOut c)))
+  have hs := quoted_never_split env.ifs _ hq
+  have hne : quoteField (toField (stripTrailingNewlines (env.cmdOut c))) ≠ [] := by simp [quoteField]
+  simp only [expandWordMultiple, expandWord, expandWordUnit, Text.isNil, expandTextGo, expandTextUnit, cmdSubstPhrase,
+    expandWordGo, Phrase.zeroFields, Phrase.append, Phrase.toFields, doubleQuote, List.flatMap_cons, List.flatMap_nil,
+    List.append_nil, Bool.false_eq_true, if_false]
+  rw [hs]
+  simp [hne, removeQuotes_quoteField_toField]
+
+/-- The backquote form expands like `$(…)` (the difference is in the lexer's unquoting of the command text), in every
+    context; and a command substitution never changes the environment. -/
+theorem cmdsubst_backquote_same (env : Env) (ws : Bool) (c : List Char) :
+    expandTextUnit env ws (.cmd true c) = expandTextUnit env ws (.cmd false c) ∧
+    (expandTextUnit env ws (.cmd false c)).1 = env := by
+  simp [expandTextUnit]
+
+def envOut (out : String) : Env :=
+  { vars := [("IFS", { value := some (.scalar ": ".toList), readOnly := false })],
+    pos := [], nounset := false, exitStatus := 0, arg0 := [], cmdOut := fun _ => out.toList }
+
+example : (expandWordMultiple (envOut "a:b c\n\n") (.cons (.unq (.cmd false [])) .nil)).2.toOption
+    = some ["a".toList, "b".toList, "c".toList] := by decide +kernel
+example : (expandWordMultiple (envOut "a:b\nc\n\n") (.cons (.dq (.cons (.cmd true []) .nil)) .nil)).2.toOption
+    = some ["a:b\nc".toList] := by decide +kernel
 
 /-! ## Arithmetic expansion (XCU 2.6.4; `initial/arith.rs` composed with the yash-arith model of C03) -/
 
